@@ -42,6 +42,8 @@ func vf41PlainKinds() []vf37Kind {
 		vf37Kind{Name: "exch2-col2-castfail", Class: "cast-fail-col2", Method: "exch2", Stream: 2, X: 8, In: []string{"ab-bad"}, Dispatched: true},
 		vf37Kind{Name: "dyn2-ok", Class: "ok", Method: "dyn2", Stream: 2, X: 6, In: []string{"ab-ok"}, Dispatched: true},
 		vf37Kind{Name: "dyn2-col2-castfail", Class: "dyn-cast-fail-col2", Method: "dyn2", Stream: 2, X: 8, In: []string{"ab-bad"}, Dispatched: true},
+		vf37Kind{Name: "prod-meta", Class: "emit-with-metadata", Method: "prod", Stream: 1, X: 16, In: []string{"t", "t", "t", "t"}, Dispatched: true},
+		vf37Kind{Name: "exch-meta", Class: "emit-with-metadata", Method: "exch", Stream: 2, X: 17, In: []string{"i", "i"}, Dispatched: true},
 		vf37Kind{Name: "exch-emitpanic", Class: "handler-panic", Method: "exch", Stream: 2, X: 3, In: []string{"i"}, Dispatched: true},
 	)
 	return k
@@ -62,6 +64,7 @@ func vf41ShmKinds() []vf37Kind {
 		{Name: "exch-shm-in", Class: "shm-input", Method: "exch", Stream: 2, X: 6, In: []string{"S", "i"}, Dispatched: true},
 		{Name: "exch-shm-in-bad", Class: "shm-input-bad", Method: "exch", Stream: 2, X: 6, In: []string{"i", "B"}, Dispatched: true},
 		{Name: "exch-err", Class: "handler-error", Method: "exch", Stream: 2, X: 2, In: []string{"S", "S"}, Dispatched: true},
+		{Name: "prod-meta", Class: "shm-emit-with-metadata", Method: "prod", Stream: 1, X: 16, In: []string{"t", "t", "t", "t"}, Dispatched: true},
 		{Name: "wide-prod", Class: "shm-wide", Method: "wide_prod", Stream: 1, X: 1, In: []string{"t", "t", "t"}, Dispatched: true},
 		{Name: "wide-exch", Class: "shm-wide", Method: "wide_exch", Stream: 2, X: 1, In: []string{"i", "S"}, Dispatched: true},
 	}
